@@ -23,6 +23,19 @@ impl vstd::std_specs::cmp::PartialOrdSpecImpl for Duration {
         if self.ns < o.ns { Some(core::cmp::Ordering::Less) } else if self.ns == o.ns { Some(core::cmp::Ordering::Equal) } else { Some(core::cmp::Ordering::Greater) }
     }
 }
+// the Duration API within reach of the report code (std semantics)
+impl Duration {
+    pub const ZERO: Duration = Duration { ns: 0 };
+    pub const MAX: Duration = Duration { ns: 18446744073709551615999999999 };
+    #[verifier::external_body] pub fn is_zero(&self) -> (r: bool) ensures r == (self.ns == 0) { unimplemented!() }
+    #[verifier::external_body] pub fn as_nanos(&self) -> (r: u128) ensures r == self.ns { unimplemented!() }
+    #[verifier::external_body] pub fn as_millis(&self) -> (r: u128) ensures r == self.ns / 1_000_000 { unimplemented!() }
+    #[verifier::external_body] pub fn as_secs(&self) -> (r: u64) ensures r == self.ns / 1_000_000_000 { unimplemented!() }
+    #[verifier::external_body] pub fn from_millis(ms: u64) -> (r: Duration) ensures r.ns == ms as int * 1_000_000 { unimplemented!() }
+    #[verifier::external_body] pub fn from_secs(s: u64) -> (r: Duration) ensures r.ns == s as int * 1_000_000_000 { unimplemented!() }
+    #[verifier::external_body] pub fn min(self, o: Duration) -> (r: Duration) ensures r == (if o.ns < self.ns { o } else { self }) { unimplemented!() }
+    #[verifier::external_body] pub fn max(self, o: Duration) -> (r: Duration) ensures r == (if o.ns > self.ns { o } else { self }) { unimplemented!() }
+}
 pub struct RelayUrl { pub id: int }
 impl Clone for RelayUrl { #[verifier::external_body] fn clone(&self) -> (r: RelayUrl) ensures r == *self { unimplemented!() } }
 #[derive(Clone, Copy)]
